@@ -45,6 +45,7 @@ class Knobs:
     ddlist_empty: float = 0.1  # D3
     ddlist_markup: float = 0.3  # D26 (fixed): drop-down entries with & < >
     no_r_namespace: float = 0.08  # D1
+    local_ns: float = 0.1  # prefixes other than w / r are declared on the elements that use them, not on the root (python-docx style)
     bare_picture_part: float = 0.04  # a header / footer holding a picture element without any r: attribute, r undeclared
     start_zero: float = 0.1  # D13
     markers_in_link: float = 0.08  # D23
@@ -84,6 +85,43 @@ TEXT_ATOMS = [
     "&lt;b&gt;", "<b>", "</b>", "x<y", "1", "42", "é", "ß", "日本", "\U0001F600",
     " ", "tab", "--", "----", ")", "\t", "i", "v", "footnote1)", "a href",
 ]
+
+
+def localize_ns(root, keep=("w", "r")):
+    """the same tree with the namespace prefixes other than `keep` declared on the outermost elements that use
+    them instead of on the root (what python-docx and hand-written producers do); prefixes stay the same
+    (round-9 seed C02-content-qnames-from-root-nsmap)"""
+    by_uri = {u: p for p, u in root.nsmap.items() if p}
+
+    def needed(el, scope):
+        out = {}
+        names = [el.tag] + list(el.attrib)
+        for n in names:
+            if isinstance(n, str) and n.startswith("{"):
+                u = n[1:].split("}")[0]
+                if u in by_uri and by_uri[u] not in scope and u != "http://www.w3.org/XML/1998/namespace":
+                    out[by_uri[u]] = u
+        return out
+
+    def copy(el, parent, scope):
+        if not isinstance(el.tag, str):
+            c = etree.Comment(el.text) if el.tag is etree.Comment else etree.ProcessingInstruction(el.target, el.text)
+            c.tail = el.tail
+            parent.append(c)
+            return
+        ns = needed(el, scope)
+        new = etree.SubElement(parent, el.tag, dict(el.attrib), nsmap=ns) if parent is not None else None
+        new.text, new.tail = el.text, el.tail
+        for k in el:
+            copy(k, new, scope | set(ns))
+
+    top_ns = {p: u for p, u in root.nsmap.items() if p in keep}
+    top_ns.update(needed(root, set(top_ns)))
+    new_root = etree.Element(root.tag, dict(root.attrib), nsmap=top_ns)
+    new_root.text = root.text
+    for k in root:
+        copy(k, new_root, set(top_ns))
+    return new_root
 
 
 class Gen:
@@ -250,6 +288,14 @@ class Gen:
                 if etree.QName(x).localname == "lang":
                     x.set(self.q("w", "val"), "")
                     self.feat("empty_val")
+        if self.p(0.1):
+            # tracked change of the run properties: the OLD properties are recorded inside w:rPrChange, last
+            # child of w:rPr; they are not the run's formatting (round-9 seed C07-rpr-iter-into-rprchange)
+            old = [self.E("w:b"), self.E("w:i"), self.E("w:u", {"w:val": "single"}), self.E("w:sz", {"w:val": "40"}),
+                   self.E("w:color", {"w:val": "0000FF"}), self.E("w:strike"), self.E("w:b", {"w:val": "0"})]
+            self.r.shuffle(old)
+            pr.append(self.E("w:rPrChange", {"w:id": "12", "w:author": "a"}, self.E("w:rPr", {}, *old[:self.r.randint(1, 3)])))
+            self.feat("rpr_change")
         if self.p(self.k.xml_comment_in_props):
             self.feat("xml_comment_in_props")
             pr.insert(self.r.randint(0, len(pr)), etree.Comment("x"))
@@ -724,6 +770,17 @@ class Gen:
                         tcpr.append(self.E("w:vMerge"))
                 tc = self.E("w:tc")
                 self.in_cell += 1
+                if self.p(0.08):
+                    # tracked change of the cell properties (a cell that was split / un-merged with change tracking
+                    # on): the OLD properties, with their own gridSpan / vMerge, are recorded inside w:tcPrChange,
+                    # last child of w:tcPr; they say nothing about the current grid
+                    # (round-9 seed C04-tcpr-iter-into-tcprchange)
+                    oldp = [self.E("w:gridSpan", {"w:val": self.r.choice(["2", "3"])})] if self.p(0.6) else []
+                    if self.p(0.5) or not oldp:
+                        oldp.append(self.E("w:vMerge", {"w:val": self.r.choice(["restart", "continue"])}) if self.p(0.7)
+                                    else self.E("w:vMerge"))
+                    tcpr.append(self.E("w:tcPrChange", {"w:id": "13", "w:author": "a"}, self.E("w:tcPr", {}, *oldp)))
+                    self.feat("tcpr_change")
                 if tcpr or self.p(0.3):
                     pr = self.E("w:tcPr", {}, *tcpr)
                     if self.p(self.k.xml_comment_in_props):
@@ -848,6 +905,9 @@ class Gen:
             etree.cleanup_namespaces(root)
             if "r" not in root.nsmap:
                 self.feat("no_r_namespace")
+        elif self.p(self.k.local_ns):
+            root = localize_ns(root, keep=("w", "r"))
+            self.feat("local_ns_declarations")
         return root
 
     def notes_part(self, kind: str):
